@@ -1131,4 +1131,50 @@ Proof.
   rewrite S. exact L.
 Qed.
 
+(* ---- closed form of the bytes a store writes ---------------------------------------------------------------- *)
+Lemma store_writes_sub t (alt : order) v buf i :
+  sub_byte t -> bytes_ok buf -> raw_ok t v -> 0 <= i < pixels_total t (buf_len buf) ->
+  let lo := if alt then (i mod ppb t) * bits t else 8 - (i mod ppb t + 1) * bits t in
+  let b := byte_at buf (i / ppb t) in
+  byte_at (fst (store t alt v buf i)) (i / ppb t) = b - ((b / 2 ^ lo) mod 2 ^ bits t) * 2 ^ lo + v * 2 ^ lo.
+Proof.
+  intros St Hb Hv Hi.
+  destruct (sub_total t (buf_len buf) i St (proj1 Hi) (buf_len_nonneg buf)) as (T & M & D).
+  rewrite store_sub_in by auto. cbn [fst]. rewrite byte_at_upd_eq by lia.
+  pose proof (sb_store t alt (i mod ppb t) (byte_at buf (i / ppb t)) v St M (byte_at_ok _ _ Hb) Hv) as S.
+  pose proof (sb_load t alt (i mod ppb t) (byte_at buf (i / ppb t)) St M (byte_at_ok _ _ Hb)) as L.
+  cbv zeta in *. destruct S as (_ & _ & S2 & _). destruct L as (_ & L2 & _). rewrite <- L2. exact S2.
+Qed.
+
+Lemma store_writes_whole t (alt : order) v buf i k :
+  whole_bytes t -> bytes_ok buf -> len_ok buf -> raw_ok t v -> 0 <= i < pixels_total t (buf_len buf) ->
+  0 <= k < nbytes t ->
+  byte_at (fst (store t alt v buf i)) (i * nbytes t + k) =
+  (v / 256 ^ (if alt then nbytes t - 1 - k else k)) mod 256.
+Proof.
+  intros Wt Hb Hl Hv Hi Hk. apply len_ok_usize in Hl. destruct Wt as [->|Mt].
+  - change (nbytes U8) with 1 in *. assert (k = 0) by lia. subst k.
+    rewrite u8_total in Hi. rewrite store_u8_in by auto. cbn [fst].
+    replace (i * 1 + 0) with i by lia. rewrite byte_at_upd_eq by auto.
+    unfold raw_ok in Hv. cbn [bits] in Hv. destruct alt; change (1 - 1 - 0) with 0; change (256 ^ 0) with 1;
+      rewrite Z.div_1_r, Z.mod_small; lia.
+  - destruct (multi_nbytes t Mt) as [Hn _].
+    pose proof (proj1 (multi_total t (buf_len buf) i Mt (proj1 Hi) (buf_len_nonneg buf)) (proj2 Hi)) as Hr.
+    pose proof (length_encode t alt v Mt) as Le.
+    rewrite store_multi_in by auto. cbn [fst]. rewrite byte_at_splice by nia. rewrite Le.
+    replace (i * nbytes t + k <? i * nbytes t) with false by lia.
+    replace (i * nbytes t + k <? i * nbytes t + nbytes t) with true by lia.
+    replace (i * nbytes t + k - i * nbytes t) with k by lia.
+    unfold raw_ok in Hv. clear Hr Le Hi Hb Hl.
+    destruct Mt as [->|[->| ->]]; nb; cbn [bits] in Hv;
+      assert (Ek : k = 0 \/ k = 1 \/ k = 2 \/ k = 3) by lia;
+      destruct Ek as [->|[->|[->| ->]]]; try lia; destruct alt;
+      unfold encode_bytes, to_be; nb;
+      change (Z.to_nat 0) with 0%nat; change (Z.to_nat 1) with 1%nat; change (Z.to_nat 2) with 2%nat; change (Z.to_nat 3) with 3%nat;
+      cbn [to_le rev app skipn firstn nth];
+      repeat match goal with |- context [?a - 1 - ?b] => let x := eval vm_compute in (a - 1 - b) in change (a - 1 - b) with x end;
+      repeat match goal with |- context [256 ^ ?e] => let x := eval vm_compute in (256 ^ e) in change (256 ^ e) with x end;
+      lia.
+Qed.
+
 End WithUsize.
